@@ -260,10 +260,17 @@ def call(v, meth, args, seed):
     if meth == 'assign':
         v.assign_str(args[0])
         return v
-    if meth == 'replace' and isinstance(args[1], list):
-        mk, _m = styled_new(args[1][1], seed)
+    if meth == 'replace':
         a = list(args)
-        a[1] = mk()
+        if isinstance(args[1], list):
+            # 'self': the receiver itself is the replacement value
+            a[1] = v if args[1][1] == 'self' else styled_new(args[1][1], seed)[0]()
+        if isinstance(v, AnsiString) and len(a) > 2 and a[2] in (-2, 1):
+            # counts -2 and 1 take the in-place form (AnsiString only), which must return the receiver
+            r = v.replace(*a, inplace=True)
+            if r is not v:
+                raise RuntimeError('replace(inplace=True) did not return the receiver')      # reported as edit-raises
+            return r
         return v.replace(*a)
     return getattr(v, meth)(*args)
 
@@ -272,7 +279,7 @@ def check_probe(h, text, cells, meth, args, seed, twin=False):
     """Returns list of (clause, detail)."""
     margs = list(args)
     if meth == 'replace' and isinstance(args[1], list):
-        margs[1] = styled_new(args[1][1], seed)[1]
+        margs[1] = ('styled', text, list(cells)) if args[1][1] == 'self' else styled_new(args[1][1], seed)[1]
     exp = expected(text, cells, meth, margs)
     if exp is None:
         return None
@@ -334,7 +341,7 @@ def probes_main(text, b):
     for old in pats:
         if old not in text:
             continue
-        for new in ('', 'z', 'zz', ['styled', 'one'], ['styled', 'two'], ['styled', 'str'], ['styled', 'restart'], old):
+        for new in ('', 'z', 'zz', ['styled', 'one'], ['styled', 'two'], ['styled', 'str'], ['styled', 'restart'], ['styled', 'self'], old):
             for k in (-1, -2, 0, 1, 2):
                 yield 'replace', [old, new, k]
 
